@@ -593,7 +593,7 @@ func drawLP(t *rapid.T) lpCase {
 }
 
 func TestLPSimplex(t *testing.T) {
-	vk.Run(t, "lp-simplex", vk.Opts{Quick: 20000, Thorough: 600000}, drawLP, checkLP)
+	vk.Run(t, "lp-simplex", vk.Opts{Quick: 24000, Thorough: 600000}, drawLP, checkLP)
 }
 
 // ---- Convert ---------------------------------------------------------------------------------
@@ -790,5 +790,5 @@ func drawConvert(t *rapid.T) convCase {
 }
 
 func TestLPConvert(t *testing.T) {
-	vk.Run(t, "lp-convert", vk.Opts{Quick: 4000, Thorough: 100000}, drawConvert, checkConvert)
+	vk.Run(t, "lp-convert", vk.Opts{Quick: 6000, Thorough: 100000}, drawConvert, checkConvert)
 }
